@@ -253,7 +253,8 @@ def run(prop, cfg, tier, seed):
 
 OVERLOADS = {
     '__add__': 'S + O', '__radd__': 'O + S', '__sub__': 'S - O', '__rsub__': 'O - S', '__mul__': 'S * O', '__rmul__': 'O * S',
-    '__truediv__': 'S / O', '__rtruediv__': 'O / S', '__pow__': 'S ** O', '__mod__': 'S % O', '__neg__': '-S',
+    '__truediv__': 'S / O', '__rtruediv__': 'O / S', '__pow__': 'S ** O', '__rpow__': 'O ** S', '__mod__': 'S % O', '__rmod__': 'O % S',
+    '__neg__': '-S', '__pos__': '+S', '__abs__': 'abs(S)',
     '__gt__': 'S > O', '__lt__': 'S < O', '__ge__': 'S >= O', '__le__': 'S <= O', '__eq__': 'S == O', '__ne__': 'S != O',
 }
 
